@@ -65,6 +65,7 @@ TRUSTED = []
 TS = bytes(7)
 LONG_PROBE_PREFIX = 300
 core.NO_THREAD_OPS.add(802)     # seconds per history: concurrent callers are probed on the short histories (op 800)
+core.NO_LIVE_PROBE_OPS.add(802)
 
 
 def _hdr(i, data_len=0):
